@@ -1,6 +1,7 @@
 """C10 -- key discrimination: calls that bind unequal values never share a key; typed keys separate types (bounded)."""
 from bounded import keychecks as KC
 
+CROSSHAIR = ['bounded.xh.keymap_sidecar', 'bounded.xh.probe']
 CONTRACTS = ['klepto._inspect._keygen', 'klepto.keymaps.keymap/hashmap/stringmap/picklemap', 'klepto.crypto.hash/string/pickle']
 RULE = ('one evaluation = the key of one valid call under one information-preserving keymap configuration, recorded against '
         'the binding CPython produced; a violation is one key shared by two different bindings; distinct_nontrivial = distinct keys seen')
